@@ -362,6 +362,7 @@ class Program:
                 self.fns[pfx + k] = v
         # normalisation: helpers that are new relative to the pinned tree are inlined into their callers (hv/inline.py)
         self.extra_closures = {}
+        _resolve_named_consts(self)
         from . import inline as _inline
         _inline.apply(self, Body)
 
@@ -453,6 +454,49 @@ class Program:
 
 
 _PROGRAMS = {}
+
+
+def _resolve_named_consts(prog):
+    """A use of a named scalar constant (`const H0: u32 = 0x67452301; .. = H0`) is given the constant's value, so that rules which look at
+    literal operands see the same program whether a number is written in place or through a `const` item."""
+    cache = {}
+
+    def value(path):
+        if path not in cache:
+            cache[path] = None
+            cb = prog.bodies.get(path)
+            if cb is not None and cb.kind in ("const",):
+                try:
+                    d = describe(prog, cb, 0)
+                except Exception:
+                    d = None
+                if isinstance(d, tuple) and d[0] == "lit" and isinstance(d[1], (int, bool)):
+                    cache[path] = d[1]
+            elif cb is None:
+                try:
+                    d = const_from_hir(prog, path)
+                except Exception:
+                    d = None
+                if isinstance(d, tuple) and d[0] == "lit" and isinstance(d[1], (int, bool)):
+                    cache[path] = d[1]
+        return cache[path]
+
+    def walk(x):
+        if isinstance(x, dict):
+            if x.get("k") == "const" and "def" in x and "v" not in x and "promoted" not in x and "fn" not in x:
+                v = value(x["def"])
+                if v is not None:
+                    x["v"] = v
+            for y in x.values():
+                walk(y)
+        elif isinstance(x, list):
+            for y in x:
+                walk(y)
+
+    for b in list(prog.bodies.values()):
+        if b.kind in ("const", "static"):
+            continue
+        walk(b.blocks)
 
 
 def load(config, fresh=False):
